@@ -58,7 +58,96 @@ def _write(path, contigs, rnd, width, eol, final_newline, gz, blank_desc, member
 		f.write(data)
 
 
+_UP = bytes.maketrans(b'acgt', b'ACGT')
+_COMP0 = bytes(({65: 84, 67: 71, 71: 67, 84: 65}).get(b, 0) for b in range(256))
+_DIG = bytes.maketrans(b'ACGT', b'0123')
+
+
+def fast_spec_signature(k, prefix, contigs):
+	"""the same specification as spec_signature (k-mers directly following the prefix on either strand), written over bytes so that
+	megabase contigs are affordable; cross-validated against the brute-force version on every small genome of the run"""
+	out = set()
+	for s in contigs:
+		U = s.translate(_UP)
+		for text in (U, U.translate(_COMP0)[::-1]):
+			q = text.find(prefix)
+			while q != -1:
+				kmer = text[q + len(prefix):q + len(prefix) + k]
+				if len(kmer) == k and not kmer.translate(None, b'ACGT'):
+					out.add(int(kmer.translate(_DIG), 4))
+				q = text.find(prefix, q + 1)
+	return sorted(out)
+
+
+_TO_NUC = bytes(b'ACGT'[b & 3] for b in range(256))
+
+
+def _long_genome(rnd, k, prefix, case):
+	"""contigs longer than any plausible buffer / window / chunk size (2^16, 10^6, 2^20 by default), with one match planted across EVERY
+	multiple of those sizes at a controlled distance from it - forward strand and reverse strand alternate, the distance cycles through
+	1..total_len-1 over the contigs - so that a k-mer lost at a chunk edge cannot hide"""
+	T = len(prefix) + k
+	contigs, planted = [], 0
+	for c in range(case['ncontigs']):
+		L = case['length'] + rnd.randrange(0, 50)
+		if case.get('background') == 'C':
+			body = bytearray(b'C' * L)
+		else:
+			body = bytearray(rnd.randbytes(L).translate(_TO_NUC))
+		bounds = sorted({m for step in case['steps'] for m in range(step, L, step)})
+		for j, B in enumerate(bounds):
+			o = 1 + (c // 2 + j * case.get('stride', 0)) % (T - 1)   # the match starts o positions before the boundary and ends after it
+			kmer = bytes(rnd.choice(b'ACGT') for _ in range(k))
+			m = prefix + kmer if c % 2 == 0 else revcomp(prefix + kmer)
+			body[B - o:B - o + T] = m
+			planted += 1
+		contigs.append(bytes(body))
+	return contigs, planted
+
+
+def run_long_case(case):
+	from gambit.kmers import KmerSpec
+	from gambit.seq import SequenceFile
+	from gambit.sigs.calc import calc_file_signature, calc_signature
+	rnd = random.Random(case['seed'])
+	k, prefix = case['k'], case['prefix'].encode()
+	ks = KmerSpec(k, case['prefix'])
+	contigs, planted = _long_genome(rnd, k, prefix, case)
+	exp = fast_spec_signature(k, prefix, contigs)
+	tmp = tempfile.mkdtemp(prefix='c06L_')
+	problems = []
+	try:
+		for v in range(3):
+			cs = list(contigs)
+			if v == 1:
+				cs = [revcomp(c) for c in cs]
+			elif v == 2:
+				cs = [revcomp(c) if rnd.random() < .5 else c for c in cs]
+				rnd.shuffle(cs)
+			path = os.path.join(tmp, f'L{v}.fa' + ('.gz' if v == 2 else ''))
+			_write(path, cs, rnd, [None, 80, 61][v], [b'\n', b'\n', b'\r\n'][v], True, v == 2, False)
+			try:
+				got = list(map(int, calc_file_signature(ks, SequenceFile(path, 'fasta', 'auto'))))
+			except Exception as e:
+				got = f'raised {type(e).__name__}: {e}'
+			if got != exp:
+				d = sorted(set(exp) ^ set(got))[:5] if not isinstance(got, str) else got
+				problems.append({'variant': ['as generated', 'every contig reverse-complemented', 'random contigs reverse-complemented, shuffled, gzip, CRLF'][v],
+				                 'contig lengths': [len(c) for c in cs], 'planted matches': planted, 'differing k-mer indices': d,
+				                 'expected size': len(exp), 'got size': len(got) if not isinstance(got, str) else None})
+				break
+		if not problems:
+			per = sorted(set().union(*[set(map(int, calc_signature(ks, c))) for c in contigs]))
+			if per != exp:
+				problems.append('union of per-contig signatures (calc_signature) differs from the specification')
+		return {'ok': not problems, 'expected': exp[:8], 'actual': problems or 'ok'}
+	finally:
+		shutil.rmtree(tmp, ignore_errors=True)
+
+
 def run_case(case):
+	if case.get('long'):
+		return run_long_case(case)
 	from gambit.kmers import KmerSpec
 	from gambit.seq import SequenceFile
 	from gambit.sigs.calc import calc_file_signature, calc_signature
@@ -74,6 +163,8 @@ def run_case(case):
 		problems = []
 		if per != exp:
 			problems.append('union of per-contig signatures differs from the specification')
+		if fast_spec_signature(k, prefix, contigs) != exp:
+			raise RuntimeError('oracle self-check: the bytes-level specification disagrees with the brute-force one')
 		for v in range(case.get('variants', 6)):
 			cs = list(contigs)
 			if v > 0:
@@ -125,6 +216,20 @@ def bounded(tier, seed):
 			failures.append({'case': c, 'expected': r.get('expected'), 'actual': r.get('actual'), 'class': 'file'})
 			if len(failures) >= 4:
 				break
+	# long contigs: every multiple of 2^16, 10^6 and 2^20 is straddled by a planted match
+	LONG = [{'k': 11, 'prefix': 'ATGAC', 'ncontigs': 4, 'length': (1 << 20) + (1 << 16) + 100, 'steps': [1 << 16, 10 ** 6, 1 << 20], 'stride': rnd.randrange(1, 15)},
+	        {'k': 4, 'prefix': 'ATG', 'ncontigs': 12, 'length': (1 << 20) + 100, 'steps': [1 << 16, 1 << 20], 'background': 'C'},
+	        {'k': 11, 'prefix': 'ATGAC', 'ncontigs': 30, 'length': (1 << 16) + 100, 'steps': [1 << 12, 1 << 16], 'background': 'C'}]
+	if tier != 'quick':
+		LONG += [{'k': 11, 'prefix': 'ATGAC', 'ncontigs': 30, 'length': (1 << 21) + 100, 'steps': [1 << 16, 10 ** 6, 1 << 20]},
+		         {'k': 7, 'prefix': 'AT', 'ncontigs': 16, 'length': (1 << 22) + 100, 'steps': [1 << 16, 1 << 20, 1 << 22], 'background': 'C'},
+		         {'k': 16, 'prefix': 'ATGAC', 'ncontigs': 40, 'length': (1 << 20) + 100, 'steps': [1 << 16, 1 << 20], 'background': 'C'}]
+	for lc in LONG:
+		c = dict(lc, long=True, seed=rnd.randrange(10 ** 9))
+		r = run_case(c)
+		n += 1
+		if not r.get('ok'):
+			failures.append({'case': c, 'expected': r.get('expected'), 'actual': r.get('actual'), 'class': 'long-contig'})
 	return {'tool': 'real calc_file_signature / calc_signature on generated FASTA files against the brute-force specification',
-	        'bound': f'{N} genomes of <= 5 contigs (matches planted flush with both contig ends on both strands, junctions that would match if contigs were joined) x 5 rewrites each: per-contig reverse complement, contig shuffle, per-letter case, line width 1..80/unwrapped, LF/CRLF, final newline or not, gzip or not (single- and multi-member), 7 file extensions; every fifth genome has a failing computation (truncated gzip) interleaved',
+	        'bound': f'{N} genomes of <= 5 contigs (matches planted flush with both contig ends on both strands, junctions that would match if contigs were joined) x 5 rewrites each: per-contig reverse complement, contig shuffle, per-letter case, line width 1..80/unwrapped, LF/CRLF, final newline or not, gzip or not (single- and multi-member), 7 file extensions; every fifth genome has a failing computation (truncated gzip) interleaved; plus {len(LONG)} genomes of contigs longer than 2^16 .. 2^22 with a match planted across every multiple of 2^12/2^16/10^6/2^20/2^22 at every distance 1..total_len-1 on alternating strands (3 rewrites each)',
 	        'cases': n, 'failures': failures, 'samples': sample}
